@@ -112,6 +112,36 @@ func TestMkCorpus(t *testing.T) {
 		c := b.AddCommit(nil, b.AddTree(files), ip(2))
 		b.Push(main, c, ip(2))
 		emitWitness(t, out, "C01", 1, b, full, w)
+	case "F64", "F64a":
+		// one file rule covers every file (threshold 1); a global threshold rule demands 2 principals for src/*;
+		// a commit by key 2 changes docs/x (rule met, global rule not matching) and src/y
+		w := envStr("VERIF_WITNESS", "")
+		b := NewWorldBuilder(t)
+		p := basePolicy()
+		p.Root.GlobalRules = []GlobalRuleSpec{{Name: "two-for-src", Kind: "threshold", Patterns: []string{"file:src/*"}, Threshold: 2}}
+		p.Files[0].Rules = append(p.Files[0].Rules, RuleSpec{Name: "protect-files", Patterns: []string{"file:*"}, Principals: []int{1002, 1003}, Threshold: 1})
+		b.AddPolicy(p, true)
+		files := []WFile{{"docs/x", 1}, {"src/y", 2}}
+		if w == "F64a" {
+			files = []WFile{{"src/y", 2}}
+		}
+		c := b.AddCommit(nil, b.AddTree(files), ip(2))
+		b.Push(main, c, ip(2))
+		emitWitness(t, out, "C11", 1, b, full, w)
+	case "F65", "F65a":
+		// no file rule in any rule file; a global threshold rule demands one authenticated principal for src/*;
+		// an unsigned commit changes src/y (F65a: a file rule exists for docs/* only, so files are looked at)
+		w := envStr("VERIF_WITNESS", "")
+		b := NewWorldBuilder(t)
+		p := basePolicy()
+		p.Root.GlobalRules = []GlobalRuleSpec{{Name: "one-for-src", Kind: "threshold", Patterns: []string{"file:src/*"}, Threshold: 1}}
+		if w == "F65a" {
+			p.Files[0].Rules = append(p.Files[0].Rules, RuleSpec{Name: "protect-docs", Patterns: []string{"file:docs/*"}, Principals: []int{1003}, Threshold: 1})
+		}
+		b.AddPolicy(p, true)
+		c := b.AddCommit(nil, b.AddTree([]WFile{{"src/y", 2}}), nil)
+		b.Push(main, c, ip(2))
+		emitWitness(t, out, "C11", 1, b, full, w)
 	default:
 		t.Skip("set VERIF_WITNESS")
 	}
